@@ -443,6 +443,13 @@ fn run_case(case: &[String]) -> String {
                 let dest: std::net::SocketAddr = "10.9.9.9:5060".parse().unwrap();
                 let parts = sip_core::transport::OutgoingParts { transport: tp.clone(), destination: dest, buffer: Default::default() };
                 let text = format!("{}\r\nX-Pad: long enough not to be taken for a truncated STUN header\r\n\r\n", line);
+                // a status line without a reason phrase is a value of the API (reason: None), built directly
+                let bare_code = line.strip_prefix("SIP/2.0 ").filter(|c| !c.is_empty() && c.bytes().all(|b| b.is_ascii_digit())).and_then(|c| c.parse::<u16>().ok());
+                if let Some(code) = bare_code {
+                    let line = StatusLine { code: Code::from(code), reason: None };
+                    let mut m = sip_core::transport::OutgoingResponse { msg: sip_core::Response { line, headers, body: Bytes::from(body) }, parts };
+                    return match endpoint.send_outgoing_response(&mut m).await { Ok(()) => "ok".into(), Err(e) => format!("SEND-ERR {}", e) };
+                }
                 match parse_complete(endpoint.parser(), text.as_bytes()) {
                     Ok(CompleteItem::Sip { line: MessageLine::Request(line), .. }) => {
                         let mut m = sip_core::transport::OutgoingRequest { msg: sip_core::Request { line, headers, body: Bytes::from(body) }, parts };
